@@ -21,7 +21,13 @@ RULE = ("(1) acyclic conserved flows: superpositions of 1..6 weighted source->si
         "handed over as Fortran-ordered array, .T view, window of a larger C / F array, strided and negative-stride views, "
         "read-only C / F arrays, float32, int32/int64 (integer entries), scipy.io.savemat->loadmat output -- same numbers, so "
         "the same results are demanded, and the caller's array, the memory it is a view of, its dtype, strides and flags "
-        "must be unchanged. All with random source/sink sets (occasionally overlapping / duplicated), both removal schemes, "
+        "must be unchanged; (7) scale: the exact graphs of (1), (2), (5) multiplied by 2^-40, 2^-50, 2^-60, 2^-100 (a power of two "
+        "scales every edge, every bottleneck and every residual exactly, so paths are the same and fluxes scale by that "
+        "factor: an edge of 2^-60 is as real as an edge of 1), and mixed matrices in which ordinary edges / superposed "
+        "pathways (weights 1/2..4) coexist with tiny ones (the same weights times 2^-41 or 2^-44; all sums and differences "
+        "still exact in doubles), mostly with cut-off 1.0 and no path limit: on exact conserved flows (subtract scheme) `paths` "
+        "may stop short of the whole flux only if its own double-precision running fraction reached the cut-off. "
+        "All with random source/sink sets (occasionally overlapping / duplicated), both removal schemes, "
         "num_paths in {1,2,3,inf}, flux_cutoff in {0.5,0.9,1-1e-10} (stream 5 also 1.0). On conserved subtract cases with "
         "num_paths=inf the executable hypotheses of c17_conserved_reaches_fraction (conservedb, forwardb with a topological "
         "order, nodupb of the sources) are evaluated in Coq too. Each case runs the real top_path and paths; the "
@@ -138,6 +144,59 @@ def _conserved_big(rng):
     rng.shuffle(src)
     rng.shuffle(snk)
     return n, M, src, snk
+
+
+# ---- round 3s (second wave): tiny scales and matrices mixing ordinary with tiny edges ------------------------------
+TINY_SCALES = [40, 50, 60, 100]          # 2^-40 = 9.1e-13 ... : below any plausible absolute "round-off" threshold
+MIXED_SCALES = [41, 44]                  # weights (1/2..4) * 2^-k stay exactly summable with weights up to ~100
+
+
+def _tiny_or_not(rng, k, p=0.5):
+    return F(1, 2 ** k) if rng.random() < p else F(1)
+
+
+def _mixed_conserved(rng, k):
+    """acyclic conserved flow: superposed source->sink pathways, each either of ordinary weight or 2^-k times that;
+    at least one of each sort, so that real pathways are left when all ordinary ones have been subtracted"""
+    n = rng.randint(4, 9)
+    order = list(range(n))
+    rng.shuffle(order)
+    ks, kt = rng.choice([1, 1, 2]), rng.choice([1, 1, 2])
+    src, snk = order[:ks], order[n - kt:]
+    pos = {v: i for i, v in enumerate(order)}
+    mids = order[ks:n - kt]
+    M = [[F(0)] * n for _ in range(n)]
+    npth = rng.randint(2, 7)
+    sorts = [F(1), F(1, 2 ** k)] + [_tiny_or_not(rng, k) for _ in range(npth - 2)]
+    rng.shuffle(sorts)
+    for sc in sorts:
+        s, t = rng.choice(src), rng.choice(snk)
+        inner = sorted(rng.sample(mids, rng.randint(0, min(len(mids), 4))), key=lambda v: pos[v])
+        p = [s] + inner + [t]
+        w = _weight(rng) * sc
+        for a, b in zip(p, p[1:]):
+            M[a][b] += w
+    rng.shuffle(src)
+    rng.shuffle(snk)
+    return n, M, src, snk
+
+
+def _mixed_digraph(rng, k):
+    """arbitrary digraph, every edge either ordinary or tiny"""
+    n, M, src, snk = _digraph(rng)
+    p = rng.choice([0.3, 0.5, 0.8])
+    M = [[x * _tiny_or_not(rng, k, p) if x else x for x in row] for row in M]
+    return n, M, src, snk
+
+
+def _exact_in_doubles(c):
+    """every entry is a multiple of one power of two u and the sum of ALL entries is below 2^53 u: then every sum
+    of entries, every residual after subtraction and every partial sum is exactly representable"""
+    xs = [F(x) for row in c["M"] for x in row]
+    D = max(x.denominator for x in xs)
+    if D & (D - 1) or any(D % x.denominator for x in xs):
+        return False
+    return sum(abs(x) for x in xs) * D < 2 ** 53
 
 
 def _float_flux(rng):
@@ -269,6 +328,36 @@ def generate(rng, tier):
             sc = F(1)
         M = [[x * sc for x in row] for row in M]
         cases.append(_mk(kind, n, M, src, snk, sch, npaths, cut, layout=lay))
+    # round 3s (second wave): exact power-of-two scalings far below 1e-12, and ordinary + tiny edges in one matrix
+    F64_LAYOUTS = [None, None, None, "F", "T", "win", "step", "rev", "ro"]
+    for i in range(170 if tier == "quick" else 1400):
+        r = rng.random()
+        sch, npaths, cut = _params(rng)
+        lay = rng.choice(F64_LAYOUTS)
+        if i % 2 == 0:
+            k = TINY_SCALES[(i // 2) % len(TINY_SCALES)]
+            if r < 0.4:
+                kind, (n, M, src, snk) = "conserved", _conserved(rng)
+            elif r < 0.6:
+                kind, (n, M, src, snk) = "conserved", _conserved_big(rng)
+                sch, npaths, cut = ("subtract" if rng.random() < 0.8 else "bottleneck"), None, rng.choice([1, 2, 3, 3])
+            else:
+                kind, (n, M, src, snk) = "digraph", _digraph(rng)
+            M = [[x / 2 ** k for x in row] for row in M]
+            c = _mk(kind, n, M, src, snk, sch, npaths, cut, layout=lay)
+            c["scale"] = k
+        else:
+            k = MIXED_SCALES[(i // 2) % len(MIXED_SCALES)]
+            if r < 0.6:
+                kind, (n, M, src, snk) = "conserved", _mixed_conserved(rng, k)
+                if rng.random() < 0.8:
+                    sch, npaths, cut = ("subtract" if rng.random() < 0.8 else "bottleneck"), None, rng.choice([2, 3, 3, 3])
+            else:
+                kind, (n, M, src, snk) = "digraph", _mixed_digraph(rng, k)
+            c = _mk(kind, n, M, src, snk, sch, npaths, cut, layout=lay)
+            c["mixed"] = k
+            assert _exact_in_doubles(c)
+        cases.append(c)
     if tier == "thorough":
         # exhaustive small scope: every digraph on 3 nodes with weights {0,1,2} on the 6 off-diagonal edges
         pos = [(i, j) for i in range(3) for j in range(3) if i != j]
@@ -547,7 +636,37 @@ def oracle(c, r):
         if sum(fls) < want - F(1, 10 ** 9) * total:
             out.append(("conserved-reaches-fraction", "scheme=%s: explained %s of %s, requested fraction %s" % (
                 c["scheme"], sum(fls), total, CUTOFFS[c["cutoff"]])))
+        elif _fraction_exact(c, conserved, total) and sum(fls) < want:
+            # exact flows (every float operation of the subtract scheme is exact): the only legitimate reason to stop
+            # short of the requested fraction is that the code's own double-precision running sum reached the cut-off
+            e = _float_expl(c, ps["fluxes"], total)
+            if e < CUTOFFS[c["cutoff"]]:
+                out.append(("conserved-reaches-fraction", "scheme=subtract, exact flow: %d pathways explain %s of %s (running "
+                            "fraction in doubles %r < requested %r) although source->sink pathways of positive flux "
+                            "(widest %s) are left in the residual matrix" % (
+                                len(fls), sum(fls), total, e, CUTOFFS[c["cutoff"]], _widest(R, n, src, snk)[0])))
     return out
+
+
+F64_EXACT_LAYOUTS = (None, "C", "F", "T", "win", "winF", "step", "rev", "ro", "roF", "loadmat")
+
+
+def _fraction_exact(c, conserved, total):
+    """domain of the exact form of the fraction clause: that of c17_conserved_reaches_fraction (subtract scheme, sources
+    listed once and disjoint from the sinks, cut-off <= 1) on float64 matrices whose arithmetic is exact"""
+    return (c["kind"] == "conserved" and c["scheme"] == "subtract" and _fraction_clause(c, conserved, total)
+            and not (set(c["src"]) & set(c["snk"])) and c.get("layout") in F64_EXACT_LAYOUTS
+            and CUTOFFS[c["cutoff"]] <= 1 and _exact_in_doubles(c))
+
+
+def _float_expl(c, fluxes, total):
+    """the running explained fraction exactly as `paths` accumulates it: expl_flux += flux / total_flux in doubles"""
+    t = float(total)
+    assert F(t) == total
+    e = 0.0
+    for x in fluxes:
+        e += float(F(x)) / t
+    return e
 
 
 # ----------------------------------------------------------------------------- model comparison
@@ -690,6 +809,17 @@ def tags(c, r):
     t = [c["kind"], "scheme-" + c["scheme"], "num_paths-%s" % ("inf" if c["num_paths"] is None else c["num_paths"]),
          "cutoff-%s" % c["cutoff"]]
     top, ps = r["top"], r["paths"]
+    if c.get("scale"):
+        t.append("scale-2^-%d" % c["scale"])
+        if "err" not in top and top["flux"] not in ("inf", "-inf", "nan"):
+            t.append("scale-tiny-top-finite")
+    if c.get("mixed"):
+        t.append("mixed-tiny")
+        if "err" not in ps and any(0 < F(x) <= F(1, 10 ** 12) for x in ps["fluxes"]) and \
+                any(F(x) > F(1, 10 ** 12) for x in ps["fluxes"]):
+            t.append("mixed-tiny-and-ordinary-paths-returned")
+        if "err" not in top and top["flux"] not in ("inf", "-inf", "nan") and F(top["flux"]) <= F(1, 10 ** 12):
+            t.append("mixed-top-bottleneck-tiny")
     if c.get("layout"):
         lay = c["layout"] if _layout_ok(c, c["layout"]) else "fallback"
         t.append("layout-" + lay)
@@ -723,6 +853,10 @@ def tags(c, r):
             total = sum(sum(M[s]) for s in c["src"])
             if _fraction_clause(c, _is_conserved(M, c["n"], c["src"], c["snk"]), total):
                 t.append("fraction-clause-checked")
+                if _fraction_exact(c, True, total):
+                    t.append("fraction-clause-exact")
+                    if sum(F(x) for x in ps["fluxes"]) < F(CUTOFFS[c["cutoff"]]) * total:
+                        t.append("fraction-exact-stopped-by-float-sum")
                 if c["scheme"] == "subtract":
                     t.append("fraction-theorem-hypotheses-met")
     return t
@@ -731,7 +865,9 @@ def tags(c, r):
 ESSENTIAL_TAGS = ["conserved", "digraph", "float", "malformed", "scheme-subtract", "scheme-bottleneck", "top-finite",
                   "no-path", "multi-sink", "multi-source", "top-IndexError", "top-ValueError", "npaths-returned-4+",
                   "stopped-by-num_paths", "equal-fluxes", "fraction-clause-checked",
-                  "fraction-theorem-hypotheses-met", "cutoff-3"] + ["layout-" + l for l in LAYOUTS] + [
+                  "fraction-theorem-hypotheses-met", "cutoff-3", "fraction-clause-exact", "mixed-tiny",
+                  "mixed-tiny-and-ordinary-paths-returned", "mixed-top-bottleneck-tiny", "scale-tiny-top-finite"] + [
+                  "scale-2^-%d" % k for k in TINY_SCALES] + ["layout-" + l for l in LAYOUTS] + [
                   "layout-nonC-bottleneck-2+paths", "layout-nonC-subtract-2+paths", "layout-C-bottleneck-2+paths",
                   "layout-C-subtract-2+paths"]
 
